@@ -300,7 +300,8 @@ impl<S: MdkStorageProvider> World<S> {
                         self.events.insert(ev, EvInfo { event: e, kind: "commit".into(), author: m, state: st.parse().unwrap_or(9999), epoch: ep, ts, msg: None, ckind: format!("adv-{akind}"), refs: refs.clone(), auth: is_admin, removes: removes.clone() });
                         let j = |v: Vec<String>| if v.is_empty() { "-".to_string() } else { v.join(",") };
                         // an identity change is a pure self-update as far as authorisation goes; it is refused by validate_commit_identities
-                        let (is_admin, bad) = if akind == "ic" { (true, " bad=8") } else { (is_admin, "") };
+                        // (with proposals swept from the builder's store it is no longer a pure self-update: a non-admin's is then refused as unauthorised first)
+                        let (is_admin, bad) = if akind == "ic" { (is_admin || swept.is_empty(), " bad=8") } else { (is_admin, "") };
                         if akind == "ic" { if let Some(i) = self.events.get_mut(&ev) { i.auth = false; } }
                         (format!("{} | author={m} parent={st} pepoch={ep} idkey={key} auth={} data={} removes={} refs={}{bad}", t.join(" "), is_admin as u8, if akind == "gn" { ev + 1 } else { 0 }, j(removes.iter().map(|x| x.to_string()).collect()), j(refs.iter().map(|x| x.to_string()).collect())), "ok".into())
                     }
